@@ -468,3 +468,176 @@ func freeVarBinding(fv *ssa.FreeVar) ssa.Value {
 	})
 	return out
 }
+
+// ------------------------------------------------------------------ failures are kept
+
+// failureScope: the functions whose treatment of failing calls a property depends on.
+var failureScope = map[string]struct {
+	id    string
+	fns   []string
+	text  string
+	floor int
+}{
+	"C01": {"R01.19", []string{"(*option.Option).Save", "getoptions.parseCLIArgs", "(*getoptions.GetOpt).Parse", "(*getoptions.GetOpt).SetValue"},
+		"text that does not convert, or that Save refuses, always ends in a parse error", 12},
+	"C02": {"R02.16", []string{"(*option.Option).Save", "getoptions.parseCLIArgs"},
+		"an element that does not convert (where a value is mandatory or attached) always ends in a parse error", 10},
+	"C11": {"R11.18", []string{"(*getoptions.GetOpt).Dispatch", "(*getoptions.GetOpt).Parse", "getoptions.checkRequired"},
+		"a missing required option always ends in an error", 4},
+	"C16": {"R16.16", []string{"(*dag.Graph).DepthFirstSort", "dag.visit", "(*dag.Graph).Run", "(*dag.Graph).Validate", "(*dag.Graph).addTask", "(*dag.Graph).retrieveOrAddVertex",
+		"(*dag.Graph).AddTask", "(*dag.Graph).TaskDependsOn", "(*dag.Graph).TaskRetries"},
+		"a definition error or a cycle always reaches the caller of Run / Validate", 9},
+}
+
+// failureExceptions: call sites where a failing callee is deliberately not a failure of the caller (confirmed by reading).
+var failureExceptions = map[string]string{
+	"getoptions.parseCLIArgs/strconv.Atoi":       "look-ahead of the greedy value loop: a token that is not an int ends the value list and is interpreted normally",
+	"getoptions.parseCLIArgs/strconv.ParseFloat": "look-ahead of the greedy value loop: a token that is not a float ends the value list and is interpreted normally",
+}
+
+func init() {
+	for prop := range failureScope {
+		prop := prop
+		addRules(prop, func(w *World, r *Report) { rFailuresKept(w, r, prop) })
+	}
+}
+
+// rFailuresKept: inside the functions of the scope, once a call to a library function (or a strconv conversion) has
+// returned a non-nil error, the caller cannot end as if nothing had happened: a caller that returns an error returns a
+// surely non-nil one on every path (that error, one that wraps it, a freshly made one, a package-level error value);
+// a caller without an error result records the error in an error list (or panics) on every path.
+func rFailuresKept(w *World, r *Report, prop string) {
+	sc := failureScope[prop]
+	ru := r.Rule(sc.id, "a failure is never turned into success ("+sc.text+"): in "+strings.Join(sc.fns, ", ")+", after any call to a library function or strconv conversion has returned a non-nil error, every path of the caller returns a surely non-nil error (or, in a function without an error result, records it in the graph's error list); the look-ahead conversions of the greedy value loop and the completion run are the confirmed exceptions", sc.floor)
+	for _, name := range sc.fns {
+		fn := w.Fn(name)
+		if fn == nil && name == "dag.visit" {
+			if d := w.Fn("(*dag.Graph).DepthFirstSort"); d != nil {
+				fn = dfsVisitFn(d) // by role: may have become a method
+			}
+		}
+		if fn == nil {
+			base := name[strings.LastIndex(name, ".")+1:]
+			if base != "" && !token.IsExported(base) {
+				continue // an unexported helper that was merged into its callers: they are in the scope themselves
+			}
+			ru.Undecided("anchor/"+name, "-", "not found")
+			continue
+		}
+		res := fn.Signature.Results()
+		void := res.Len() == 0 || typeString(res.At(res.Len()-1).Type()) != "error"
+		ig := buildIG(fn)
+		for _, c := range allCalls(fn) {
+			if c.Value() == nil {
+				continue
+			}
+			cn := calleeName(c)
+			callee := c.Common().StaticCallee()
+			isLib := callee != nil && w.PkgOfFn(callee) != nil
+			if !isLib && !strings.HasPrefix(cn, "strconv.") && cn != nDynCommandFn {
+				continue
+			}
+			rs := c.Common().Signature().Results()
+			if rs.Len() == 0 || typeString(rs.At(rs.Len()-1).Type()) != "error" {
+				continue
+			}
+			key := "failure/" + short(fn) + "/" + cn
+			if why, ok := failureExceptions[short(fn)+"/"+cn]; ok {
+				ru.Present(key, w.IPos(c), "exception: "+why)
+				continue
+			}
+			if cn == nParseCLI {
+				if s, ok := constString(c.Common().Args[0]); !ok || s != "" {
+					ru.Present(key+"/completion", w.IPos(c), "exception: the completion run prints the error and leaves through the exit path")
+					continue
+				}
+			}
+			var errV ssa.Value
+			var def ssa.Instruction
+			if rs.Len() == 1 {
+				errV, def = c.Value(), c
+			} else if c.Value().Referrers() != nil {
+				for _, ref := range *c.Value().Referrers() {
+					if ex, ok := ref.(*ssa.Extract); ok && ex.Index == rs.Len()-1 {
+						errV, def = ex, ex
+					}
+				}
+			}
+			if errV == nil {
+				ru.Bad(key, w.IPos(c), "the error result of "+cn+" is discarded")
+				continue
+			}
+			records := func(in ssa.Instruction) bool {
+				ac, ok := in.(*ssa.Call)
+				if !ok || calleeName(ac) != "builtin:append" || len(ac.Call.Args) < 2 {
+					return false
+				}
+				els, _, _ := elementsOf(ac.Call.Args[1], map[ssa.Value]bool{})
+				for _, e := range els {
+					if e == errV {
+						return true
+					}
+				}
+				return false
+			}
+			var stop func(ssa.Instruction) bool
+			if void {
+				stop = records
+			}
+			ig.recordEdges = map[[2]*ssa.BasicBlock]bool{}
+			reached, ok := ig.reachVSInit(ig.after(def), stop, nil, triEnv{errV: vsVal{t: 2}})
+			edges := ig.recordEdges
+			ig.recordEdges = nil
+			if !ok {
+				ru.Undecided(key, w.IPos(c), "path search exhausted")
+				continue
+			}
+			bad := ""
+			if reached[ig.idx[c.(ssa.Instruction)]] && !void {
+				bad = "the call runs again before anything is returned (its next result replaces the error)"
+			}
+			for i, in := range ig.instrs {
+				ret, isRet := in.(*ssa.Return)
+				if !isRet || !reached[i] {
+					continue
+				}
+				if void {
+					bad = "the function can return (at " + w.IPos(ret) + ") without having recorded the error"
+					continue
+				}
+				for _, v := range valuesFromEdges(ret.Results[len(ret.Results)-1], edges, map[ssa.Value]bool{}) {
+					if !sureError(v, errV) {
+						bad = "a path returns (at " + w.IPos(ret) + ") something that is not surely an error"
+					}
+				}
+			}
+			ru.Check(bad == "", key, w.IPos(c), "the failure reaches the caller", "after "+cn+" failed in "+short(fn)+": "+bad)
+		}
+	}
+}
+
+// sureError: v is certainly a non-nil error when errV is.
+func sureError(v, errV ssa.Value) bool {
+	if v == errV {
+		return true
+	}
+	switch x := v.(type) {
+	case *ssa.Call:
+		n := calleeName(x)
+		if n == "fmt.Errorf" || n == "errors.New" {
+			return true
+		}
+		for _, a := range x.Call.Args {
+			if a == errV {
+				return true
+			}
+		}
+	case *ssa.UnOp:
+		if g, ok := x.X.(*ssa.Global); ok && x.Op == token.MUL && typeString(g.Type()) == "*error" {
+			return true
+		}
+	case *ssa.MakeInterface:
+		return true
+	}
+	return false
+}
